@@ -398,7 +398,8 @@ fn rt<T: Scalar, C: Serialize + DeserializeOwned + PartialEq + Debug>(cx: &mut C
     // ---- 3. untyped read-back
     if fail.is_none() {
         if let Some(exp) = &expect {
-            let unspecified = ov.yaml_12 && !ov.quote_all && v.as_str().map(|s| is_yaml11_only_bool(&s)).unwrap_or(false);
+            // (quote_all does not change this for keys: keys are never quoted by quote_all)
+            let unspecified = ov.yaml_12 && v.as_str().map(|s| is_yaml11_only_bool(&s)).unwrap_or(false);
             if unspecified {
                 // yaml_12 documents that YAML 1.1 bool spellings stay unquoted; what an untyped reader
                 // makes of them is not pinned down by the statement.
